@@ -57,6 +57,8 @@ def rt_key(inv: str, rec: Dict[str, Any], enums: Dict[str, Dict[str, List[int]]]
         key["outcome"] = "well_formed" if rec["xparsed"] else rec["xo"]
     elif inv == "Inv_JsonForm":
         key["outcome"] = rec["jo"]
+    elif inv == "Inv_SdkGenerated":
+        key["outcome"] = "sdk_not_importable" if not rec["sdk"] else "instance_not_constructible"
     return key
 
 
@@ -161,6 +163,7 @@ def main() -> int:
     ck.cov["mutation_kinds"] = dict(collections.Counter("%s:%s" % (r["fmt"], r["kind"]) for r in mut))
     ck.cov["outcomes"] = dict(collections.Counter("%s:%s" % (r["fmt"], r["outcome"]["o"]) for r in mut))
     ck.cov["model_check_states"] = mres.distinct
+    ck.cov["models_refused_by_the_front_end"] = sorted({r["mid"] for r in rt if not r["accepted"]})
     if rt:
         ck.cov["samples"].append({"instance": rt[len(rt) // 2]["x"], "model": rt[len(rt) // 2]["mid"], "observed_jsonable": rt[len(rt) // 2]["j"]})
     if mut:
